@@ -250,3 +250,15 @@ Example argminmax_guard_instance :
   existsb (fun l : list cell => forallb is_none l) (lines None 0 2 (frame_cells bs)) = false /\
   S_argframe true 0 true 2 (frame_cells bs) = Ok [ONum (0 # 1); ONum (1 # 1)].
 Proof. vm_compute. repeat split; reflexivity. Qed.
+
+(* the two renderings of the regenerated table agree, and the cumulative functions pass no dtype *)
+Theorem table_rows_agree :
+  (forall f, In (rfunc_name f, c15_table f) c15_rows) /\
+  (forall name fl, In (name, fl) c15_rows -> (name = "cumsum" \/ name = "cumprod")%string -> fl_dtypes fl = DsEmpty).
+Proof.
+  split.
+  - intros []; vm_compute; tauto.
+  - intros name fl H Hn. vm_compute in H.
+    repeat (destruct H as [H|H]; [injection H as <- <-; destruct Hn as [Hn|Hn]; try discriminate Hn; reflexivity|]).
+    contradiction.
+Qed.
